@@ -2033,15 +2033,29 @@ class _Project:
     def update(self, path: FileId, optional_text: Optional[str] = None) -> None:
         diagnostics: Dict[FileId, List[Diagnostic]] = {path: []}
         _, ext = os.path.splitext(path)
-        pages: List[Page] = []
+        pages: List[Tuple[Page, List[Diagnostic]]] = []
         if ext in RST_EXTENSIONS:
             for page, page_diagnostics in parse_rst(self.parser, path, optional_text):
-                pages.append(page)
+                pages.append((page, page_diagnostics))
                 diagnostics[path] = page_diagnostics
         elif self.yaml_domain.is_known_yaml(path):
-            for page, diag in self.yaml_domain.update(path, optional_text):
-                pages.append(page)
-                diagnostics[path] = list(diag)
+            for source, source_pages, diag in self.yaml_domain.update(
+                path, optional_text
+            ):
+                source_diagnostics = list(diag)
+                diagnostics[source] = source_diagnostics
+
+                # Forget the pages this file no longer generates, and any diagnostics
+                # recorded for it while it generated no page at all
+                generated = set(page.fake_full_fileid() for page in source_pages)
+                for key in self.pages.keys_from_source(source):
+                    if key not in generated:
+                        del self.pages[key]
+                del self.pages[source]
+                if not source_pages:
+                    self.pages.set_orphan_diagnostics(source, source_diagnostics)
+
+                pages.extend((page, source_diagnostics) for page in source_pages)
         else:
             self.update_asset(path)
 
@@ -2049,8 +2063,8 @@ class _Project:
             for source_path, diagnostic_list in diagnostics.items():
                 self.on_diagnostics(source_path, diagnostic_list)
 
-        for page in pages:
-            self._page_updated(page, diagnostic_list)
+        for page, page_diagnostics in pages:
+            self._page_updated(page, page_diagnostics)
             fileid = page.fake_full_fileid()
             with self._backend_lock:
                 self.backend.on_update(
@@ -2062,10 +2076,15 @@ class _Project:
     def delete(self, fileid: FileId) -> None:
         self.yaml_domain.delete(fileid.name)
 
-        if fileid.suffix in RST_EXTENSIONS:
+        if fileid.suffix in RST_EXTENSIONS or self.yaml_domain.is_known_yaml(fileid):
+            # Drop every page generated from this file: a YAML file can yield several
+            for key in self.pages.keys_from_source(fileid):
+                del self.pages[key]
             del self.pages[fileid]
-        elif self.yaml_domain.is_known_yaml(fileid):
-            self.yaml_domain.update(fileid)
+
+            # This file no longer depends on any asset
+            if fileid in self.asset_dg:
+                self.asset_dg.remove_edges_from(list(self.asset_dg.out_edges(fileid)))
         else:
             for predecessor in self.asset_dg.predecessors(fileid):
                 self.update(predecessor)
@@ -2273,7 +2292,6 @@ class _Project:
             )
             for asset in page.static_assets
         )
-
         # Report to our backend
         self.pages[page.fake_full_fileid()] = (
             page,
